@@ -43,7 +43,8 @@ Theorem c17_admin_admitted : forall st m st1, exited st = None -> main_ok st = t
   step st (Accept Admin m) = Some st1 ->
   let i := length (clients st) in
   exists st2, step st1 (AuthDone i true) = Some st2 /\ log st2 = OAdmitted i :: log st1 /\
-    exists st3, step st2 (Stmt i) = Some st3 /\ log st3 = OServed i :: log st2.
+    exists st2', step st2 (Enter i) = Some st2' /\ log st2' = log st2 /\ queue st2' = queue st2 /\
+    exists st3, step st2' (Stmt i) = Some st3 /\ log st3 = OServed i :: log st2'.
 Proof. exact admin_admitted. Qed.
 Print Assumptions c17_admin_admitted.
 
@@ -197,6 +198,18 @@ Theorem c17_sigint_on_full_channel_refuted : exists cap tr st, run (init false c
 Proof. exact sigint_full_refuted. Qed.
 Print Assumptions c17_sigint_on_full_channel_refuted.
 
+(** SECOND DEFECT (counting starts after the client has been answered).  "Exits once all clients have
+    left" is false in the other direction, too: a non-admin client that was accepted before SIGINT and
+    has been told it is connected (AuthenticationOk .. ReadyForQuery; it may have sent BEGIN) is in
+    nobody's count until its task has sent the +1; a SIGINT handled in that window sees zero and the
+    process exits at once under the client (it is neither refused nor told to go, and its transaction is
+    not allowed to finish although shutdown_timeout has not passed). *)
+Theorem c17_exit_before_counted_refuted : exists tr st c, run (init false 2048) tr = Some st /\
+  exited st = Some ByZero /\ In (OAdmitted 0) (log st) /\ ~ In (OKicked 0) (log st) /\
+  nth_error (clients st) 0 = Some c /\ cphase c = Authed /\ ckind c = Normal /\ gate c = false /\ tmr st = TArmed.
+Proof. exact exit_before_counted_refuted. Qed.
+Print Assumptions c17_exit_before_counted_refuted.
+
 (** the guard under which the liveness theorems above speak: [known_wedge tz tr] = the trace wedges *)
 Theorem c17_known_wedge_inhabited : exists tr, known_wedge false 2048 tr = true.
 Proof. exact known_wedge_refuted. Qed.
@@ -274,10 +287,10 @@ Example ex_late_auth :
   = Some (true, 0, Some ByZero, false, [(Starting, false); (Idle, false)], [OAdmitted 1; OExit ByZero], 0)
   /\
   final_script false [SEv (Accept Normal TxnMode); SEv (Accept Admin TxnMode); SEv (AuthDone 1 true); SRaw Sigint; SRaw SigintQ;
-                      SRaw (AuthDone 0 true); SRaw (Poll 0)]
+                      SRaw (AuthDone 0 true); SRaw (Enter 0); SRaw (Poll 0)]
   = Some (true, 0, None, false, [(Gone, false); (Idle, false)], [OAdmitted 1; OAdmitted 0; OKicked 0], 0)
   /\
-  final_script false [SEv (Accept Normal TxnMode); SRaw Sigint; SRaw SigintQ; SRaw (AuthDone 0 true); SRaw (TxnStart 0);
+  final_script false [SEv (Accept Normal TxnMode); SRaw Sigint; SRaw SigintQ; SRaw (AuthDone 0 true); SRaw (Enter 0); SRaw (TxnStart 0);
                       SRaw (Stmt 0); SRaw (TxnEnd 0); SRaw (Poll 0)]
   = Some (true, 0, None, false, [(Gone, false)], [OAdmitted 0; OServed 0; OServed 0; OKicked 0], 0).
 Proof. vm_compute. repeat split; reflexivity. Qed.
@@ -285,10 +298,10 @@ Proof. vm_compute. repeat split; reflexivity. Qed.
 (** lag: the +1 and -1 of a client are delivered after it left and after SIGINT was handled (the
     same queue, with the 0 delivered before the exit arm runs, is wedge schedule W1) *)
 Example ex_lag :
-  final false [Accept Normal TxnMode; AuthDone 0 true; Leave 0 Clean; Sigint; SigintQ; DrainDeliver; DrainDeliver; ExitDeliver]
+  final false [Accept Normal TxnMode; AuthDone 0 true; Enter 0; Leave 0 Clean; Sigint; SigintQ; DrainDeliver; DrainDeliver; ExitDeliver]
   = Some (true, 0, Some ByZero, false, [(Gone, false)], [OAdmitted 0; OLeft 0 Clean; OExit ByZero], 0)
   /\
-  final false [Accept Normal TxnMode; AuthDone 0 true; Leave 0 Clean; Sigint; SigintQ; DrainDeliver; DrainDeliver; DrainDeliver]
+  final false [Accept Normal TxnMode; AuthDone 0 true; Enter 0; Leave 0 Clean; Sigint; SigintQ; DrainDeliver; DrainDeliver; DrainDeliver]
   = Some (true, 0, None, true, [(Gone, false)], [OAdmitted 0; OLeft 0 Clean], 0).
 Proof. vm_compute. split; reflexivity. Qed.
 
@@ -302,18 +315,24 @@ Example ex_wedge :
     = Some (true, 0, Some ByZero, false, [(Gone, false)], [OAdmitted 0; OKicked 0; OExit ByZero], 0) /\
   final false wedge_inflight = Some (true, 0, None, true, [(Gone, false)], [OAdmitted 0; OLeft 0 Clean], 0) /\
   final false wedge_cancel = Some (true, 0, None, true, [(Gone, false)], [OLeft 0 Clean], 0) /\
-  final false [Accept Normal TxnMode; AuthDone 0 true; DrainDeliver; Leave 0 Clean; Sigint; SigintQ; DrainDeliver; ExitDeliver]
+  final false [Accept Normal TxnMode; AuthDone 0 true; Enter 0; DrainDeliver; Leave 0 Clean; Sigint; SigintQ; DrainDeliver; ExitDeliver]
   = Some (true, 0, Some ByZero, false, [(Gone, false)], [OAdmitted 0; OLeft 0 Clean; OExit ByZero], 0).
 Proof. vm_compute. repeat split; reflexivity. Qed.
 
+(** E1 as a script: the client is answered, the SIGINT is handled before its task has sent the +1 *)
+Example ex_exit_before_counted :
+  final_script false [SEv (Accept Normal TxnMode); SLate (AuthDone 0 true); SLate Sigint]
+  = Some (true, 0, Some ByZero, false, [(Authed, false)], [OAdmitted 0; OExit ByZero], 0).
+Proof. vm_compute. reflexivity. Qed.
+
 (** W3 on a 4-slot channel: two cancel requests not yet received, then SIGINT *)
 Example ex_wedge_full :
-  option_map view (run (init false 4) [Accept Canc TxnMode; AuthDone 0 true; Leave 0 Clean;
-                                       Accept Canc TxnMode; AuthDone 1 true; Leave 1 Clean; Sigint; SigintQ])
+  option_map view (run (init false 4) [Accept Canc TxnMode; AuthDone 0 true; Enter 0; Leave 0 Clean;
+                                       Accept Canc TxnMode; AuthDone 1 true; Enter 1; Leave 1 Clean; Sigint; SigintQ])
   = Some (true, 0, None, true, [(Gone, false); (Gone, false)], [OLeft 0 Clean; OLeft 1 Clean], 0)
   /\
-  option_map view (run (init false 5) [Accept Canc TxnMode; AuthDone 0 true; Leave 0 Clean;
-                                       Accept Canc TxnMode; AuthDone 1 true; Leave 1 Clean; Sigint; SigintQ])
+  option_map view (run (init false 5) [Accept Canc TxnMode; AuthDone 0 true; Enter 0; Leave 0 Clean;
+                                       Accept Canc TxnMode; AuthDone 1 true; Enter 1; Leave 1 Clean; Sigint; SigintQ])
   = Some (true, 0, None, false, [(Gone, false); (Gone, false)], [OLeft 0 Clean; OLeft 1 Clean], 0).
 Proof. vm_compute. split; reflexivity. Qed.
 
